@@ -361,3 +361,10 @@ def check(repo, ctx, index, purity):
     r204(repo, ctx, index)
     r206(repo, ctx)
     r207(repo, ctx)
+    # R20.8: the population balance of a loaded model is rebuilt on the saved grid (C08 R8.7)
+    from . import C08
+    sub = type(ctx)(ctx.prop, ctx.repo, ctx.tier, ctx.seed)
+    C08.r87(repo, sub, index)
+    for fnd in sub.findings:
+        fnd.rule = 'R20.8/' + fnd.rule
+        ctx.findings.append(fnd)
